@@ -46,6 +46,21 @@ CLAIMED["C12"] = {
     "design": "5 C12",
 }
 
+CLAIMED["C15"] = {
+    "text": "EngineState.tla has two layers: the dictionary model of the property (pure Step function over functions-by-signature, globals, "
+            "types, used files, a class; snapshots are copies) and an implementation-shaped layer (three function tables, overload vectors "
+            "behind shared pointers, snapshots sharing the heap, copy-on-write add_function). TLC checks TablesInStep, Refines (the live "
+            "tables equal the dictionary model after every operation, in particular after set_state) and SnapshotsImmutable over all "
+            "histories inside the bound, and the in-place variant must fail. As executable reference TLC then enumerates histories (all of "
+            "length 3 over 17 operations, seeded random ones of length 8) with the visible environment expected after every step; each is "
+            "replayed into the real engine and probed through plain calls, member calls, get_functions(), globals, type names, a class and "
+            "a top-level local after every step.",
+    "note": "Globals are modelled as the code shares them: a snapshot holds the binding name -> object, so a later assignment to an "
+            "existing global is visible through the snapshot (spec correction, see DESIGN.md); modules (load_module) are not exercised.",
+    "technique": "TLA+ model checking (TLC) + TLC-generated histories replayed step by step into the implementation",
+    "design": "5 C15",
+}
+
 PENDING_REASON = "check not built yet in this session; planned (see DESIGN.md section 8)"
 
 ALL = [f"C{i:02d}" for i in range(1, 21)]
